@@ -394,6 +394,11 @@ func genFor(prop, part string, seed uint64) *Scenario {
 			pf.nBars = []int{2, 3, 5, 8, 17, 40}
 		}
 	case "C14":
+		if part == "err" {
+			sc := genC15(seed, common.NewRng(seed).PickS("filler", "filler", "output"))
+			sc.Fam = "C14/err"
+			return sc
+		}
 		pf.endKinds = []string{"cancel", "shutdown"}
 		pf.listenerP = 60
 		pf.notifierP = 80
@@ -410,6 +415,9 @@ func genFor(prop, part string, seed uint64) *Scenario {
 		pf.afterP = 20
 		pf.popP = 30
 	case "C05":
+		if part == "queue" {
+			return genC05Queue(seed)
+		}
 		if part == "err" {
 			sc := genC15(seed, "filler")
 			sc.Fam = "C05/err"
@@ -684,4 +692,41 @@ func lastFrameText(a *analysis) string {
 		s = s[:1500]
 	}
 	return s
+}
+
+// genC05Queue: a large heap whose re-population after a cycle takes a while, and
+// bars queued behind a bar that keeps running, each added right after a frame.
+func genC05Queue(seed uint64) *Scenario {
+	r := common.NewRng(seed)
+	sc := &Scenario{Fam: "C05/queue", Seed: seed, Q: r.Pick(-1, -1, 0, 4), Width: 200, End: "natural", Policy: r.PickS("none", "light"), Mode: r.PickS("auto", "manual"), RefreshUS: r.Pick(100, 500)}
+	n := r.Pick(20, 60, 120)
+	for i := 0; i < n; i++ {
+		b := simpleBar(100)
+		b.Filler = "nop"
+		sc.Bars = append(sc.Bars, b)
+	}
+	var ops []Op
+	step := func() Op {
+		if sc.Mode == "manual" {
+			return Op{K: "rw"}
+		}
+		return Op{K: "waitcycles", N: 1}
+	}
+	for k := 0; k < r.Range(10, 40); k++ {
+		b := simpleBar(10)
+		b.Filler = "nop"
+		b.After = r.Pick(0, 0, r.Intn(n))
+		b.AddBy = 0
+		sc.Bars = append(sc.Bars, b)
+		ops = append(ops, step(), Op{K: "add", B: len(sc.Bars) - 1})
+		if r.Chance(1, 4) {
+			ops = append(ops, Op{K: "incr", B: r.Intn(n), N: 1})
+		}
+	}
+	ops = append(ops, step(), step())
+	sc.Clients = [][]Op{ops}
+	if sc.Mode == "manual" {
+		sc.FinalRefr = 3
+	}
+	return sc
 }
